@@ -596,6 +596,13 @@ pub fn c_ics20() -> Box<dyn Contract<Empty>> {
         .with_sudo(ics20_shim),
     )
 }
+pub fn c_subkeys() -> Box<dyn Contract<Empty>> {
+    Box::new(ContractWrapper::new(
+        cw1_subkeys::contract::execute,
+        cw1_subkeys::contract::instantiate,
+        cw1_subkeys::contract::query,
+    ))
+}
 pub fn c_sink() -> Box<dyn Contract<Empty>> {
     Box::new(ContractWrapper::new(sink_execute, sink_instantiate, sink_query).with_sudo(sink_sudo))
 }
@@ -612,6 +619,7 @@ pub struct Codes {
     pub flex: u64,
     pub ics20: u64,
     pub sink: u64,
+    pub subkeys: u64,
 }
 
 pub struct Chain {
@@ -655,6 +663,7 @@ impl Chain {
             flex: app.store_code(c_flex()),
             ics20: app.store_code(c_ics20()),
             sink: app.store_code(c_sink()),
+            subkeys: app.store_code(c_subkeys()),
         };
         Chain {
             app,
